@@ -274,7 +274,8 @@ class Machine:
             for blk in mir['blocks']:
                 for st in blk['s']:
                     if st[0] == 'assign':
-                        for pl in [x for x in st[2][1:] if isinstance(x, dict) and 'l' in x]:
+                        for pl in [x for x in st[2][1:] if isinstance(x, dict) and 'l' in x] + \
+                                [x.get('copy') or x.get('move') for x in st[2][1:] if isinstance(x, dict) and ('copy' in x or 'move' in x)]:
                             flds |= {pr[3] for pr in pl['p'] if pr[0] == 'field' and pr[2] == SM_ADT}
                         if st[1]['p']:
                             wr |= {pr[3] for pr in st[1]['p'] if pr[0] == 'field' and pr[2] == SM_ADT}
@@ -1454,6 +1455,18 @@ class Machine:
                 res.append((rv, g3._replace(HH=0, HW=0, OM=0), memo3))
             return res
         arg_composition = len({a[1][-1] for a in av if a[0] == 'ref' and a[1] and a[1][0] == 'SM'} & self.NAMES4) == 4
+        if not arg_composition and path in self.ARGCOMP:
+            # the names / events may be handed over by value (Copy): decide from the call site's provenance
+            ck_ = (path, id(c))
+            memo_ = self.__dict__.setdefault('_argcomp_sites', {})
+            if ck_ not in memo_:
+                got = set()
+                for a_ in c['args']:
+                    for r_ in self.F.trace(path, a_):
+                        if r_[0] == 'param' and r_[1] == 1 and r_[2]:
+                            got |= self.NAMES4 & set(r_[2])
+                memo_[ck_] = (got == self.NAMES4)
+            arg_composition = memo_[ck_]
         if (callee in self.COMPOSERS or arg_composition) and self.composer_depth == 0 and not self.color_only and not self.passthrough and not self.quiet:
             # the composed file header of a section
             self.events['HDR_COMPOSED'] += 1
